@@ -39,12 +39,13 @@ CFG = {
     },
     "gaps": [
         "Kernel32 (the 32-bit refinement facts) is discharged: Treemap.kernel32 (Lemmas/TreemapKernel.lean) proves it for the mirrored 32-bit model with WF := Bitmap.WF from the core library (C01 mutators, C07 queries, RoaringBitmap::full()). Unconditional theorems (hypothesis: TWF t = keys strictly ascending u32, every partition Bitmap.WF and non-empty): insert, remove, contains, extend/from_iter, push, push_unchecked, insert_range (1, 2 and >= 3 partitions, whole middle partitions = RoaringBitmap::full()), remove_range, append/from_sorted_iter, from_bitmaps, clear/new, len, is_empty, min, max, rank, select, and the history induction C10_step / C10_run / C10_history over all of these (no panic in either build configuration; every returned value is the abstract one). The C10_*_partial forms (arbitrary Kernel32) are kept",
-        "NOT proved: is_full and the derived == (Treemap.eq) - decided by the correspondence check only",
+        "is_full and the derived == are now proved for every TWF treemap: C10_eq_iff (Treemap.eq a b = true <-> elems a = elems b, from Treemap.canonical over the 32-bit C04 results; C10_eq_iff_eq: == is structural equality of the model values), C10_isFull (= Spec.isFull u64Max (elems t)), C10_isFull_iff (is_full <-> exactly 2^32 partitions, each RoaringBitmap::is_full <-> 2^64 elements <-> every u64 is a member <-> contains(v) for every u64), C10_full (RoaringTreemap::full() is TWF, is_full, and == every TWF is_full value); is_full joined the Op64 alphabet of C10_step / C10_history. is_full = true and full() are never executed by the correspondence (2^32 full partitions)",
+        "model fidelity (notes/fidelity-treemap.md): every function of treemap/inherent.rs, util.rs and the Extend/append/from_bitmaps part of iter.rs was compared branch by branch with the definition the driver executes - all mirrored (insert_range / remove_range partition loops, Entry flows, push / push_unchecked arms, rank / select accumulation); the delegating trait impls From<[u64; N]>, FromIterator<(u32, RoaringBitmap)>, IntoIterator for &RoaringTreemap got harness/driver ops (tfrom_arr, tcollect_bitmaps, tfor_ref; corpus/C10/trait-glue.ops)",
         "the model's insert_range counter is a Nat (the u64 counter of the code overflows only when all 2^64 values are new, see C16); insert_range over >= 2 whole partitions is proved but not executed by the correspondence (a 2^32-element value does not fit the list model)",
     ],
     "assumptions": [
         "treemap correspondence bounds: <= 5 partitions (keys 0,1,3,4,u32::MAX), ranges span <= ~70000 values and touch <= 2 partitions (remove_range may span more), never a whole partition",
     ],
-    "level_text": "Theorems (Lean 4, kernel-checked, unconditional) that the model of every RoaringTreemap mutator and query (except is_full and ==) refines the abstract operation on strictly ascending lists of u64, for every well-formed treemap and every u64 argument, lifted to every finite history from new() — the partition directory (split/join at 2^32, sorted association list, partition creation/removal, RoaringBitmap::full() middle partitions) is proved here, the per-partition 32-bit facts come from the 32-bit core theorems (C01/C07); the model is tied to the Rust source by running both on the same generated histories in two build profiles.",
-    "level_note": "Trusted: Lean kernel; the hand-written model mirrors treemap/inherent.rs (checked by correspondence on generated histories only); Spec.lean as the meaning of 'set of u64'; BTreeMap is modelled as a key-sorted association list. is_full and == are checked by correspondence only. Whole-partition insert_range is proved but not executed on the Lean side.",
+    "level_text": "Theorems (Lean 4, kernel-checked, unconditional) that the model of every RoaringTreemap mutator and query (including is_full and ==) refines the abstract operation on strictly ascending lists of u64, for every well-formed treemap and every u64 argument, lifted to every finite history from new() — the partition directory (split/join at 2^32, sorted association list, partition creation/removal, RoaringBitmap::full() middle partitions) is proved here, the per-partition 32-bit facts come from the 32-bit core theorems (C01/C07); the model is tied to the Rust source by running both on the same generated histories in two build profiles.",
+    "level_note": "Trusted: Lean kernel; the hand-written model mirrors treemap/inherent.rs (checked by correspondence on generated histories only); Spec.lean as the meaning of 'set of u64'; BTreeMap is modelled as a key-sorted association list. is_full = true / full() are proved but never executed (2^32 full partitions). Whole-partition insert_range is proved but not executed on the Lean side.",
 }
